@@ -2,10 +2,13 @@
 
     Mirrors internal/dnsforward/clientid.go and Server.clientIDFromDNSContext
     (beforerequest.go) as they are in /repo, with netutil.ValidateHostnameLabel /
-    IsImmediateSubdomain from Base/Dom.v, path.Clean from Base/PathClean.v and
-    net.SplitHostPort modelled here.  No proofs in this file. *)
+    IsImmediateSubdomain from Base/Dom.v, path.Clean from Base/PathClean.v,
+    strings.ToLower (Unicode aware: UTF-8 decoding, unicode.CaseRanges, U+FFFD
+    for invalid bytes) from Model/GoLower.v and net.SplitHostPort modelled
+    here.  The order is the code's: the label is validated AS SENT and the
+    valid label is lower-cased.  No proofs in this file. *)
 From Coq Require Import List NArith Bool Arith.
-From AGH Require Import Base.Run Base.Bytes Base.Dom Base.PathClean.
+From AGH Require Import Base.Run Base.Bytes Base.Dom Base.PathClean Model.GoLower.
 Import ListNotations.
 Local Open Scope N_scope.
 
@@ -40,7 +43,7 @@ Definition from_server_name (host cli : bytes) (strict : bool) : cid_res :=
     let id := firstn (length cli - length host - 1) cli in
     match validate_hostname_label id with
     | Some e => CidErr (ESniLabel e)
-    | None => CidOk (lower id)
+    | None => CidOk (go_to_lower id)
     end.
 
 (** clientIDFromDNSContextHTTPS, given URL.Path *)
@@ -56,7 +59,7 @@ Definition from_doh_path (path : bytes) : cid_res :=
            | [id] =>
                match validate_hostname_label id with
                | Some e => CidErr (EPathLabel e)
-               | None => CidOk (lower id)
+               | None => CidOk (go_to_lower id)
                end
            | _ :: _ :: _ => CidErr EPathExtra
            end
